@@ -657,6 +657,8 @@ class Executor:
             b = self.ev(n.orelse, st, spec)
         finally:
             st.guards.pop()
+        if spec:
+            a, b = self.unopt(a, st, n, spec), self.unopt(b, st, n, spec)
         v = merge_values(c, a, b)
         if v is None:
             raise Unsupported("conditional expression of incompatible values", n)
@@ -2162,7 +2164,8 @@ class Executor:
                     for src in self.c.ghost["after_assign"][b.id]:
                         for g in ast.parse(src).body:
                             ast.increment_lineno(g, s.lineno - 1)
-                            outs = self.exec_stmt(g, st, spec)
+                            # ghost assertions are specifications (quantifiers, wpos, at_entry allowed)
+                            outs = self.exec_stmt(g, st, True if isinstance(g, ast.Assert) else spec)
                             if len(outs) != 1:
                                 raise Unsupported("ghost statement forks", s)
                             st = outs[0]
